@@ -166,7 +166,7 @@ func c02Upload(x *mc.X, st *c02Store, content []byte, seg c02Seg, what string) [
 		var ref boson.Address
 		var err error
 		if pv := mc.Try(func() {
-			ref, err = FeedPipeline(ctx, p, &c02Reader{data: append([]byte(nil), content...), k: seg.feed, eofTog: seg.eofTog})
+			ref, err = FeedPipeline(ctx, p, &c02Reader{data: append([]byte(nil), content...), k: seg.feed, eofTog: seg.eofTog, stalls: seg.stalls, stallN: seg.stallN})
 		}); pv != nil {
 			x.Fail("upload-panic", "%s: FeedPipeline panicked: %v", what, pv)
 		}
@@ -219,7 +219,9 @@ func c02Lengths() []int {
 	ls := c02BoundaryLengths()
 	if !mc.Thorough() {
 		for l := 0; l <= 2*c+2; l++ {
-			ls = append(ls, l)
+			if l <= c+2 || l >= 2*c-2 || l%7 == 0 { // quick: the inside of the second chunk every 7th length
+				ls = append(ls, l)
+			}
 		}
 	} else {
 		for l := 0; l <= 5*c+2; l++ {
@@ -238,7 +240,7 @@ func TestVerifC02(t *testing.T) {
 	mc.Run(t, mc.Config{ID: "C02", Name: "C02-reference-" + c02Geometry(), MaxDev: -1, Params: map[string]interface{}{
 		"geometry": c02Geometry(), "spec_chunk_size": cs, "spec_branches": br, "boson_chunk_size": boson.ChunkSize, "boson_branches": boson.Branches,
 		"lengths":       c02Summ(lens),
-		"segmentations": "single Write; FeedPipeline(bytes); no write / empty writes (l=0); 2 writes cut at {0,1,C-1,C,C+1,l-1,l}; 3 writes cut at pairs of {1,C-1,C,C+1,2C,2C+1,l-1}; fixed steps {1,7,C-1,C,C+1,2C+3,4C,5C+1}; C-steps with empty writes between; growing 1,2,3,..; FeedPipeline through readers returning at most {1,7,C-1} bytes, final bytes with or without io.EOF (real: single, FeedPipeline, step C+1, step 2C+3, split@1, C-1|empty|rest, reader 100000+EOF-with-data; thorough: step 65537, step 1 for l<=64)",
+		"segmentations": "single Write; FeedPipeline(bytes); no write / empty writes (l=0); 2 writes cut at {0,1,C-1,C,C+1,l-1,l}; 3 writes cut at pairs of {1,C-1,C,C+1,2C,2C+1,l-1}; fixed steps {1,7,C-1,C,C+1,2C+3,4C,5C+1}; C-steps with empty writes between; growing 1,2,3,..; FeedPipeline through readers returning at most {1,7,C-1} bytes, final bytes with or without io.EOF; FeedPipeline readers returning (0,nil): once after {0,1,C-1,C,C+1,l/2,2C,l} bytes, twice in a row after {0,C,l}, at 0+C+l/2+l of one stream, with 7-byte reads at C and twice at l/2, at C with data-with-EOF (real: single, FeedPipeline, step C+1, step 2C+3, split@1, C-1|empty|rest, reader 100000+EOF-with-data, (0,nil) once after {0,C,l/2,l} bytes, twice after C and l; thorough: step 65537, step 1 for l<=64)",
 		"oracle":        "reference == independent tree hash of the bytes (literal 262144/8192/little-endian at the real geometry); == reference of the same bytes fed by one FeedPipeline(bytes.Reader); == reference of a second upload into the already populated store"}},
 		func(x *mc.X) {
 			l := lens[x.Choose(len(lens))]
@@ -421,11 +423,13 @@ type c02Seg struct {
 	feed   int   // >0: FeedPipeline through a reader returning at most feed bytes per Read
 	eofTog bool  // the reader returns the last bytes together with io.EOF
 	reader bool  // FeedPipeline
+	stalls []int // reader: byte offsets at which Read returns (0, nil) before going on (legal for an io.Reader)
+	stallN int   // how many times in a row at each of those offsets (0 = 1)
 }
 
 func (s c02Seg) key() string {
 	if s.reader {
-		return fmt.Sprintf("feed/%d/%v", s.feed, s.eofTog)
+		return fmt.Sprintf("feed/%d/%v/%v/%d", s.feed, s.eofTog, s.stalls, s.stallN)
 	}
 	return "w/" + fmt.Sprint(s.writes)
 }
@@ -478,6 +482,14 @@ func c02SegsBuild(l int, full bool) []c02Seg {
 			add(c02Seg{name: "split@C-1+empty", writes: []int{c - 1, 0, l - (c - 1)}})
 		}
 		add(c02Seg{name: "feed-100000-eof-with-data", reader: true, feed: 100000, eofTog: true})
+		zr := []int{c, l / 2}
+		if full {
+			zr = []int{0, c, l / 2, l}
+		}
+		for _, o := range c02Dedupe(zr, 0, l) {
+			add(c02Seg{name: fmt.Sprintf("feed-C-zero-read@%d", o), reader: true, feed: c, stalls: []int{o}})
+		}
+		add(c02Seg{name: "feed-100000-zero-read-twice@C,l", reader: true, feed: 100000, stalls: c02Dedupe([]int{c, l}, 0, l), stallN: 2})
 		if full {
 			add(c02Seg{name: "step-65537", writes: c02Steps(l, 65537)})
 			if l <= 64 {
@@ -497,6 +509,9 @@ func c02SegsBuild(l int, full bool) []c02Seg {
 			add(c02Seg{name: "split@C-1,C+1", writes: []int{c - 1, 2, l - c - 1}})
 		}
 		add(c02Seg{name: "feed-7-eof-with-data", reader: true, feed: 7, eofTog: true})
+		add(c02Seg{name: "feed-C-zero-read@C|l/2", reader: true, feed: c, stalls: c02Dedupe([]int{c, l / 2}, 0, l)})
+		add(c02Seg{name: "feed-C-zero-read-before-eof", reader: true, feed: c, stalls: []int{l}})
+		add(c02Seg{name: "feed-7-zero-read-twice@0,l/2", reader: true, feed: 7, stalls: c02Dedupe([]int{0, l / 2}, 0, l), stallN: 2})
 		return out
 	}
 	if l == 0 {
@@ -541,17 +556,55 @@ func c02SegsBuild(l int, full bool) []c02Seg {
 		add(c02Seg{name: fmt.Sprintf("feed-%d-eof-with-data", k), reader: true, feed: k, eofTog: true})
 	}
 	add(c02Seg{name: "feed-C-eof-with-data", reader: true, feed: c, eofTog: true})
+	// readers that return (0, nil): once at the start / after k bytes (incl. exactly at a chunk
+	// boundary) / right before EOF, twice in a row, and at several places of one stream
+	for _, o := range c02Dedupe([]int{0, 1, c - 1, c, c + 1, l / 2, 2 * c, l}, 0, l) {
+		add(c02Seg{name: fmt.Sprintf("feed-C-zero-read@%d", o), reader: true, feed: c, stalls: []int{o}})
+	}
+	for _, o := range c02Dedupe([]int{0, c, l}, 0, l) {
+		add(c02Seg{name: fmt.Sprintf("feed-C-zero-read-twice@%d", o), reader: true, feed: c, stalls: []int{o}, stallN: 2})
+	}
+	add(c02Seg{name: "feed-C-zero-reads@0,C,l/2,l", reader: true, feed: c, stalls: c02Dedupe([]int{0, c, l / 2, l}, 0, l)})
+	add(c02Seg{name: "feed-7-zero-read@C", reader: true, feed: 7, stalls: c02Dedupe([]int{c}, 0, l)})
+	add(c02Seg{name: "feed-7-zero-read-twice@l/2", reader: true, feed: 7, stalls: []int{l / 2}, stallN: 2})
+	add(c02Seg{name: "feed-C-zero-read@C-eof-with-data", reader: true, feed: c, eofTog: true, stalls: c02Dedupe([]int{c}, 0, l)})
 	return out
 }
 
 // c02Reader hands out at most k bytes per Read; with eofTog the final bytes come with io.EOF.
+// At every offset listed in stalls (bytes delivered so far) it first returns (0, nil) stallN
+// times -- "nothing happened", which an io.Reader may do at any time -- and no Read crosses a
+// pending stall offset, so the empty read happens exactly there.
 type c02Reader struct {
-	data   []byte
-	k      int
-	eofTog bool
+	data      []byte
+	k         int
+	eofTog    bool
+	stalls    []int
+	stallN    int
+	delivered int
+	stalled   map[int]int
+	zeroReads int
 }
 
 func (r *c02Reader) Read(p []byte) (int, error) {
+	want := r.stallN
+	if want == 0 {
+		want = 1
+	}
+	limit := -1
+	for _, o := range r.stalls {
+		if o == r.delivered && r.stalled[o] < want {
+			if r.stalled == nil {
+				r.stalled = map[int]int{}
+			}
+			r.stalled[o]++
+			r.zeroReads++
+			return 0, nil
+		}
+		if o > r.delivered && (limit < 0 || o < limit) {
+			limit = o
+		}
+	}
 	if len(r.data) == 0 {
 		return 0, io.EOF
 	}
@@ -562,8 +615,12 @@ func (r *c02Reader) Read(p []byte) (int, error) {
 	if n > len(r.data) {
 		n = len(r.data)
 	}
+	if limit >= 0 && r.delivered+n > limit {
+		n = limit - r.delivered
+	}
 	copy(p, r.data[:n])
 	r.data = r.data[n:]
+	r.delivered += n
 	if len(r.data) == 0 && r.eofTog {
 		return n, io.EOF
 	}
@@ -572,6 +629,13 @@ func (r *c02Reader) Read(p []byte) (int, error) {
 
 func c02WritesSumm(s c02Seg) string {
 	if s.reader {
+		if len(s.stalls) > 0 {
+			n := s.stallN
+			if n == 0 {
+				n = 1
+			}
+			return fmt.Sprintf("FeedPipeline(reader: <=%d bytes per Read, last bytes with EOF=%v, %dx (0,nil) after %v bytes)", s.feed, s.eofTog, n, s.stalls)
+		}
 		return fmt.Sprintf("FeedPipeline(reader: <=%d bytes per Read, last bytes with EOF=%v)", s.feed, s.eofTog)
 	}
 	if len(s.writes) <= 12 {
@@ -589,6 +653,25 @@ func c02TagSeg(x *mc.X, l int, seg c02Seg) {
 		}
 		if seg.eofTog && l > 0 {
 			x.Tag("seg:feedpipeline-data-with-eof")
+		}
+		for _, o := range seg.stalls {
+			if o == l && seg.eofTog && l > 0 {
+				continue // the last bytes come with EOF: the reader is never asked again at l
+			}
+			switch {
+			case o == l:
+				x.Tag("seg:reader-zero-read-right-before-eof")
+			case o == 0:
+				x.Tag("seg:reader-zero-read-at-start")
+			default:
+				x.Tag("seg:reader-zero-read-mid-stream")
+			}
+			if o > 0 && o < l && o%c == 0 {
+				x.Tag("seg:reader-zero-read-at-chunk-boundary")
+			}
+			if seg.stallN >= 2 {
+				x.Tag("seg:reader-zero-read-twice-in-a-row")
+			}
 		}
 		return
 	}
